@@ -37,9 +37,14 @@ for c in checks:
     log=open(os.path.join(res,'check_%s.log'%c)).read()
     conds=sorted(set(re.findall(r'condition (\S+) at',log)))
     meta["checks"][c]={"violations":len(re.findall(r'^VIOLATION',log,re.M)),"conditions":conds,"inconclusive":"INCONCLUSIVE" in log}
+meta['breaks_property']=id.split('-')[0]
+meta['source']='independent sub-agent: given only the property text and its own scratch worktree of /repo, nothing from /verif'
+meta['needs_to_manifest']='see notes.md'
+meta['what_was_run']='tools/mutant_eval.sh: patch applied to a scratch worktree of /repo HEAD; go build ./... && go test ./... (default go) on the mutant; demonstration test on pristine and on mutant; ./check <prop> quick with VERIF_REPO=<scratch worktree> (logs check_<prop>.log)'
 old={}
 p=os.path.join(res,'meta.json')
 if os.path.exists(p): old=json.load(open(p))
+ch=dict(old.get('checks',{})); ch.update(meta['checks']); meta['checks']=ch
 old.update(meta)
 json.dump(old,open(p,'w'),indent=1)
 PY
